@@ -9141,7 +9141,7 @@ TreeSequence_general_stat(TreeSequence *self, PyObject *args, PyObject *kwds)
     int polarised = 0;
     int span_normalise = 0;
     tsk_size_t num_windows;
-    unsigned int output_dim;
+    uint32_t output_dim;
     npy_intp *w_shape;
     tsk_flags_t options = 0;
     int err;
@@ -9149,8 +9149,9 @@ TreeSequence_general_stat(TreeSequence *self, PyObject *args, PyObject *kwds)
     if (TreeSequence_check_state(self) != 0) {
         goto out;
     }
-    if (!PyArg_ParseTupleAndKeywords(args, kwds, "OOIO|sii", kwlist, &weights,
-            &summary_func, &output_dim, &windows, &mode, &polarised, &span_normalise)) {
+    if (!PyArg_ParseTupleAndKeywords(args, kwds, "OOO&O|sii", kwlist, &weights,
+            &summary_func, &uint32_converter, &output_dim, &windows, &mode, &polarised,
+            &span_normalise)) {
         Py_XINCREF(summary_func);
         goto out;
     }
@@ -14255,16 +14256,16 @@ LsHmm_init(LsHmm *self, PyObject *args, PyObject *kwds)
     PyObject *mutation_rate = NULL;
     PyArrayObject *mutation_rate_array = NULL;
     TreeSequence *tree_sequence = NULL;
-    unsigned int precision = 23;
+    uint32_t precision = 23;
     int acgt_alleles = 0;
     tsk_flags_t options = 0;
     npy_intp *shape, num_sites;
 
     self->ls_hmm = NULL;
     self->tree_sequence = NULL;
-    if (!PyArg_ParseTupleAndKeywords(args, kwds, "O!OO|Ii", kwlist, &TreeSequenceType,
-            &tree_sequence, &recombination_rate, &mutation_rate, &precision,
-            &acgt_alleles)) {
+    if (!PyArg_ParseTupleAndKeywords(args, kwds, "O!OO|O&i", kwlist, &TreeSequenceType,
+            &tree_sequence, &recombination_rate, &mutation_rate, &uint32_converter,
+            &precision, &acgt_alleles)) {
         goto out;
     }
     self->tree_sequence = tree_sequence;
